@@ -81,12 +81,12 @@ func runUnit(res *common.Result) {
 			deps [][]string
 		}
 		shapes := [][][]string{
-			{{}},                         // one stage
-			{{}, {}},                     // two parallel
-			{{}, {"p"}},                  // chain of 2
-			{{}, {"p"}, {"p"}},           // fan-out
-			{{}, {}, {"p", "q"}},         // fan-in
-			{{}, {"p"}, {"q"}},           // chain of 3
+			{{}},                 // one stage
+			{{}, {}},             // two parallel
+			{{}, {"p"}},          // chain of 2
+			{{}, {"p"}, {"p"}},   // fan-out
+			{{}, {}, {"p", "q"}}, // fan-in
+			{{}, {"p"}, {"q"}},   // chain of 3
 		}
 		if big {
 			shapes = append(shapes, [][]string{{}, {}, {}, {"p"}}, [][]string{{}, {"p"}, {"q"}, {"r"}}, [][]string{{}, {}, {}, {}})
@@ -124,6 +124,16 @@ func runUnit(res *common.Result) {
 		sc := Scenario{Mode: "par", Cancellers: c, Twice: twice}
 		for i := 0; i < n; i++ {
 			sc.Tasks = append(sc.Tasks, stdTask(names[i], before, ncmd, after))
+		}
+		return sc
+	}
+	// sameObj: n runs in parallel of ONE task object (the way two stages referring to one task reach the runner)
+	sameObj := func(n, c int, twice bool, before, ncmd int, after bool) Scenario {
+		sc := mkPar(n, c, twice, before, ncmd, after)
+		for i := 1; i < n; i++ {
+			sc.Tasks[i] = sc.Tasks[0]
+			sc.Tasks[i].Name = names[i]
+			sc.Tasks[i].SameAs = names[0]
 		}
 		return sc
 	}
@@ -170,6 +180,16 @@ func runUnit(res *common.Result) {
 		}
 		return items
 	}
+	sameObjSched := func(n, bound int) []item {
+		var items []item
+		for _, it := range schedItems([][][]string{make([][]string, n)}, 1, bound) {
+			for i := 1; i < n; i++ {
+				it.sc.Tasks[i].Cmds, it.sc.Tasks[i].SameAs = it.sc.Tasks[0].Cmds, names[0]
+			}
+			items = append(items, it)
+		}
+		return items
+	}
 	switch *common.Unit {
 	case "cancel-q": // quick: every number 0..3 of runs in flight, Cancel once / twice / from two threads
 		runItems([]item{
@@ -179,6 +199,7 @@ func runUnit(res *common.Result) {
 			{mkPar(2, 1, false, 0, 1, false), 1}, {mkPar(2, 1, true, 0, 1, false), 1}, {mkPar(2, 2, false, 0, 1, false), 0},
 			{mkPar(2, 1, false, 1, 2, false), 0}, {mkPar(2, 1, false, 1, 2, true), 0},
 			{mkPar(3, 1, false, 0, 1, false), 0}, {mkPar(3, 1, false, 1, 1, false), 0},
+			{sameObj(2, 1, false, 0, 1, false), 1}, {sameObj(2, 1, false, 1, 2, false), 0}, {sameObj(2, 1, true, 0, 1, false), 0}, {sameObj(3, 1, false, 0, 1, false), 0},
 		})
 	case "cancel-unbounded": // every interleaving (no preemption bound) of one run and one canceller
 		runItems([]item{
@@ -194,6 +215,7 @@ func runUnit(res *common.Result) {
 	case "cancel-sched-q":
 		items := schedItems([][][]string{{{}}}, 2, 1)
 		items = append(items, schedItems([][][]string{{{}, {}}, {{}, {"p"}}, {{}, {"p"}, {"p"}}, {{}, {}, {"p", "q"}}, {{}, {"p"}, {"q"}}}, 1, 0)...)
+		items = append(items, sameObjSched(2, 0)...) // two parallel stages that refer to ONE task object
 		runItems(items)
 	case "cancel-t": // thorough
 		runItems([]item{
@@ -206,6 +228,8 @@ func runUnit(res *common.Result) {
 		items = append(items, schedItems([][][]string{{{}, {}}, {{}, {"p"}}}, 1, 1)...)
 		items = append(items, schedItems([][][]string{{{}, {"p"}, {"p"}}, {{}, {}, {"p", "q"}}, {{}, {"p"}, {"q"}}}, 2, 0)...)
 		items = append(items, schedItems([][][]string{{{}, {}, {}, {"p"}}, {{}, {"p"}, {"q"}, {"r"}}, {{}, {}, {}, {}}}, 1, 0)...)
+		items = append(items, sameObjSched(2, 1)...)
+		items = append(items, sameObjSched(3, 0)...)
 		runItems(items)
 	case "cancel-n1-b2":
 		cancelDirect(1, 2)
